@@ -179,6 +179,16 @@ def drive_env(name, tier, seed):
     gym_reset(seed_arg=s2)
     gym_steps(4)
     gym_reset(seed_arg=s2)
+    # boundary seed values, after the adapter's key has moved on: 0 (falsy) and a large one
+    gym_steps(2)
+    gym_reset(seed_arg=0)
+    gym_steps(2)
+    gym_reset(seed_arg=0)
+    g.seed(0)
+    events.append({"k": "gym_seed", "env": name, "tid": tid, "seed": 0, "prng": keyd(jax.random.PRNGKey(0)), "key_after": keyd(g._key)})
+    gym_reset()
+    gym_reset(seed_arg=2 ** 31 - 1)
+    gym_reset()
 
     # ---- dm_env adapter ----
     tid = 2
